@@ -42,7 +42,7 @@ func (c20) Assumptions() []string {
 	}
 }
 func (c20) Required(tier string) []string {
-	return []string{"shape-big-then-small-siblings", "shape-escapes-every-level", "shape-deep", "shape-escaped-children", "shape-large-tree", "history-large-then-many-small", "history-failing-small-docs", "A-abort", "P-evict", "doc>=100KB", "reused-buffer", "reused-reader", "history-deep-then-tiny-on-one-buffer", "scaling-step-checked", "shape-deep-uncapped", "document-decoded-member-by-member-in-a-traversal", "shape-records"}
+	return []string{"shape-big-then-small-siblings", "shape-escapes-every-level", "shape-deep", "shape-escaped-children", "shape-large-tree", "history-large-then-many-small", "history-failing-small-docs", "A-abort", "P-evict", "doc>=100KB", "reused-buffer", "reused-reader", "history-deep-then-tiny-on-one-buffer", "scaling-step-checked", "shape-deep-uncapped", "document-decoded-member-by-member-in-a-traversal", "shape-records", "every-string-member-read-into-a-fresh-destination"}
 }
 
 func repeatStr(s string, n int) []byte { return bytes.Repeat([]byte(s), n) }
@@ -96,7 +96,7 @@ func c20Shape(r *Rand, shape, size int) Doc {
 		if tail < 0 {
 			tail = 0
 		}
-		unit := []string{`["\n",`, `{"\t":"\n","b":`, `["é",`}[r.Intn(3)]
+		unit := []string{`["\n",`, `{"\t":"\n","b":`, `["é",`, `["\u00e9",`, `{"\u20ac":"\ud83d\ude00","b":`}[r.Intn(5)]
 		cl := "]"
 		if unit[0] == '{' {
 			cl = "}"
@@ -171,6 +171,13 @@ func c20Shape(r *Rand, shape, size int) Doc {
 			b.WriteString("1],[]]")
 		}
 		return docOf(b.Bytes(), "shape-big-then-small-siblings")
+	case 11: // many short escaped strings, flat: what a handler reads one by one
+		unit := []string{`"\ud83d\ude00",`, `"a\nb",`, `"\u00e9t\u00e9",`, `"plain",`, `"\u20ac\u20ac\u20ac\u20ac",`}[r.Intn(5)]
+		n := size / len(unit)
+		if n < 1 {
+			n = 1
+		}
+		return docRep("shape-many-escaped-strings", "[", 1, unit, n, `""]`, 1)
 	case 10: // many small records: what a handler decodes member by member
 		unit := []string{`{"id":7},`, `{},`, `{"a":{"b":[]}},`, `[1,2],`, `{"name":"x\ny","v":[1.5]},`}[r.Intn(5)]
 		n := size / len(unit)
@@ -210,7 +217,7 @@ func c20Shape(r *Rand, shape, size int) Doc {
 	}
 }
 
-var c20Decoders = []string{"VR.ReadValue", "VR.ReadValue", "VR.ReadObject", "VR.ReadArray", "ReadValue"}
+var c20Decoders = []string{"VR.ReadValue", "VR.ReadValue", "VR.ReadObject", "VR.ReadArray", "ReadValue", "ReadObject", "ReadArray"}
 var c20Walkers = []string{"Valid", "SkipValue", "SkipValueFast", "HandleArrayValues", "HandleObjectValues"}
 
 func (c20) Gen(r *Rand, sc *Scenario, tier string) {
@@ -251,13 +258,16 @@ func (c20) Gen(r *Rand, sc *Scenario, tier string) {
 		}
 		sc.Cfg["deep-then-tiny-on-one-buffer"] = 1
 	case 0: // one shape at growing sizes
-		shape := r.Intn(11)
+		shape := r.Intn(12)
 		kind := pickKind()
 		if shape == 9 {
 			kind = "HandleArrayValues"
 		}
 		if shape == 10 {
 			kind = "TraverseDecodeMembers"
+		}
+		if shape == 11 {
+			kind = "TraverseReadStrings"
 		}
 		base := r.Range(300, 4000)
 		sc.Cfg["growing"] = 1
@@ -270,7 +280,7 @@ func (c20) Gen(r *Rand, sc *Scenario, tier string) {
 		}
 	case 1: // one large document, then many small ones on the same reader / buffer
 		shape := []int{0, 1, 6, 7, 2, 8, 8}[r.Intn(7)]
-		kind := c20Decoders[r.Intn(4)]
+		kind := c20Decoders[r.Intn(len(c20Decoders))]
 		if r.Chance(1, 5) {
 			kind = c20Walkers[r.Intn(len(c20Walkers))]
 		}
@@ -285,7 +295,7 @@ func (c20) Gen(r *Rand, sc *Scenario, tier string) {
 			s := small[r.Intn(len(small))]
 			kk := kind
 			if r.Chance(1, 3) {
-				kk = c20Decoders[r.Intn(4)]
+				kk = c20Decoders[r.Intn(len(c20Decoders))]
 			}
 			add(docOf(s, "small-after-large"), kk, m)
 		}
@@ -296,7 +306,11 @@ func (c20) Gen(r *Rand, sc *Scenario, tier string) {
 			size := []int{200, 3000, 30000, maxSize}[r.Pick(3, 3, 2, 1)]
 			if r.Chance(1, 6) {
 				// a document decoded the handler way: traversal, every member through the reused reader
-				add(c20Shape(r, []int{10, 10, 0, 1, 7}[r.Intn(5)], size), "TraverseDecodeMembers", 1)
+				if r.Chance(1, 3) {
+					add(c20Shape(r, []int{11, 11, 4, 5}[r.Intn(4)], size), "TraverseReadStrings", 1)
+				} else {
+					add(c20Shape(r, []int{10, 10, 0, 1, 7}[r.Intn(5)], size), "TraverseDecodeMembers", 1)
+				}
 				continue
 			}
 			d := c20Shape(r, r.Intn(9), size)
@@ -409,6 +423,25 @@ func (c20) Exec(sc *Scenario, st *Stats) *Violation {
 				_, _, err = reader.ReadArray(data)
 			case "ReadValue":
 				_, _, err = rjson.ReadValue(data)
+			case "ReadObject":
+				_, _, err = rjson.ReadObject(data)
+			case "ReadArray":
+				_, _, err = rjson.ReadArray(data)
+			case "TraverseReadStrings":
+				// handler style: every string member is read with ReadStringBytes into a FRESH destination
+				// (nil), other members are skipped; the document counts once, every library call is a call
+				sr := &stringReader{}
+				tt, _, terr := rjson.NextTokenType(data)
+				switch {
+				case terr != nil:
+					err = terr
+				case tt == rjson.ObjectStartType:
+					_, err = rjson.HandleObjectValues(data, sr, b)
+				default:
+					_, err = rjson.HandleArrayValues(data, sr, b)
+				}
+				extraCalls = sr.calls
+				st.probe("every-string-member-read-into-a-fresh-destination")
 			case "Valid":
 				if !rjson.Valid(data, b) {
 					err = errNotValid
@@ -499,6 +532,20 @@ func (c20) Exec(sc *Scenario, st *Stats) *Violation {
 	}
 	return nil
 }
+
+// stringReader reads every string member of a traversed container into a fresh destination.
+type stringReader struct{ calls int }
+
+func (s *stringReader) member(data []byte) (int, error) {
+	s.calls++
+	if len(data) > 0 && data[0] == '"' {
+		_, p, err := rjson.ReadStringBytes(data, nil)
+		return p, err
+	}
+	return 0, nil
+}
+func (s *stringReader) HandleArrayValue(data []byte) (int, error)     { return s.member(data) }
+func (s *stringReader) HandleObjectValue(_, data []byte) (int, error) { return s.member(data) }
 
 // memberDecoder decodes every member of a traversed container with one long-lived ValueReader.
 type memberDecoder struct {
